@@ -195,6 +195,10 @@ fn footers_for(b: &Block) -> Vec<(Vec<u8>, bool)> {
     // (footer, needs_extensions) ; with transitions only footers consistent with the last transition's type are well-formed zones,
     // others exercise the constructor's refusal through the parser (both must then fail)
     let mut v: Vec<(Vec<u8>, bool)> = vec![(b"".to_vec(), false)];
+    // footers whose numbers are valid only modulo 2^8 / 2^16 / 2^32 (must be refused, like any malformed footer)
+    for f in [&b"EST5EDT,M259.2.0,M267.1.0"[..], b"EST5EDT,M3.258.0,M11.1.0", b"EST5EDT,M3.2.256,M11.1.0", b"EST5EDT,J65537,J300", b"EST5EDT,65537,300", b"EST4294967301EDT,M3.2.0,M11.1.0", b"EST5EDT,M3.2.0/4294967298,M11.1.0"] {
+        v.push((f.to_vec(), false));
+    }
     if b.trans.is_empty() {
         v.push((b"<+0330>-3:30".to_vec(), false));
         v.push((b"EST5EDT,M3.2.0,M11.1.0".to_vec(), false));
@@ -444,6 +448,36 @@ fn corruptions(f: &[u8], version: u8, v1: &Block, v2: Option<&Block>, rec: &Reco
             expect_err(mk(b"\nEST5EDT,M3.2.0/25,M11.1.0\n"), "extension footer in v2", None, tl);
         }
     }
+}
+
+/// leap-second records whose time and correction fields take boundary values of the 32-bit and 64-bit encodings (sign bit set,
+/// zero, extremes), one or two records, in v1 and v2 files
+fn sweep_leap_fields(rec: &Recorder) -> Tally {
+    let t32: [i64; 9] = [i32::MIN as i64, i32::MIN as i64 + 1, -1, 0, 1, 78_796_800, i32::MAX as i64 - 2_500_000, i32::MAX as i64 - 1, i32::MAX as i64];
+    let t64: [i64; 12] = [i64::MIN, i64::MIN + 1, -(1 << 32), -(1 << 31), -1, 0, 78_796_800, (1 << 31) - 1, 1 << 31, 1 << 32, i64::MAX - 1, i64::MAX];
+    let corrs: [i32; 7] = [i32::MIN, -2, -1, 0, 1, 2, i32::MAX];
+    let small = Block { types: vec![(0, 0, 0)], chars: b"UTC\0".to_vec(), ..Default::default() };
+    let mut tl = Tally::default();
+    for wide in [false, true] {
+        let ts: &[i64] = if wide { &t64 } else { &t32 };
+        for &a in ts {
+            for &ca in &corrs {
+                let mut tables: Vec<Vec<(i64, i32)>> = vec![vec![(a, ca)]];
+                for &b in ts {
+                    for &cb in &[ca.wrapping_add(1), ca.wrapping_sub(1), ca] {
+                        tables.push(vec![(a, ca), (b, cb)]);
+                    }
+                }
+                for leaps in tables {
+                    let b = Block { trans: vec![(0, 0)], types: vec![(3600, 0, 0)], chars: b"CET\0".to_vec(), leaps, ..Default::default() };
+                    let f = if wide { tzif::file(b'2', &small, Some(&b), Some(b"")) } else { tzif::file(0, &b, None, None) };
+                    check_file(&f, if wide { "leap record fields (v2)" } else { "leap record fields (v1)" }, rec, "leap_fields", &mut tl);
+                }
+            }
+        }
+    }
+    rec.sub("leap_fields", json!({"files": tl.evals, "accepted": tl.accepted, "rejected": tl.rejected}));
+    tl
 }
 
 /// every (designation index, designation length, pool length) combination: index 0..=255, length 0..=8 (0 = no designation,
@@ -715,6 +749,7 @@ pub fn run(args: &Args) -> i32 {
     total = total.merge(sweep_large(&rec, thorough));
     total = total.merge(sweep_corpus_mutations(&rec, thorough));
     total = total.merge(sweep_designations(&rec));
+    total = total.merge(sweep_leap_fields(&rec));
     total = total.merge(sweep_header_counts(&rec));
     rec.add(total.evals, total.corrupt);
     rec.digest("tzif", total.digest);
